@@ -281,6 +281,31 @@ def gen_case(rng, sites=None, exc_i=None, garbage=None):
         groups = [["boot-failpoint", "boot-garbage", "hybrid-rerank"], ["fusion", "mmr", "quality-trace"], ["llm-adapter-build", "llm-adapter-ci-provider"], ["store-batch", "store-all", "store-some"]]
         pool = [s for s in SITES if not any(s in g for g in groups)] + [rng.choice(g) for g in groups]
         sites = rng.sample(pool, rng.randint(2, 4))
+    if sites == ["natural"]:
+        # no injection: the guarded layers switched on at the edges of their settings and with very few hits, where a failure
+        # would be of their own making (a wrong shape, an empty list, a zero weight)
+        from vlib.cfggen import merge
+        n_eps = rng.choice([0, 1, 2, 2, 3, 4])
+        world["eps"] = world["eps"][:n_eps]
+        for e_ in world["eps"]:
+            e_["owner"] = "A"
+        world["gel"] = [[a_, b_, w_] for a_, b_, w_ in ([[e1["id"], e2["id"], rng.choice([0.9, 0.2])] for e1 in world["eps"] for e2 in world["eps"] if e1["id"] < e2["id"]])]
+        nat = {"t2": {"k_retrieval": rng.choice([1, 2, 8]), "owner_scope": "any",
+                      "hybrid": {"enabled": True, "use_graph": True, "anchor_top_m": rng.choice([1, 2, 8]), "walk_hops": rng.choice([1, 2]), "edge_threshold": rng.choice([0.0, 0.1, 1.0]),
+                                 "lambda_graph": rng.choice([0.0, 0.0, 0.25, 1.0]), "damping": rng.choice([0.0, 0.5, 1.0]), "degree_norm": rng.choice(["none", "invdeg"]),
+                                 "max_bonus": rng.choice([0.0, 0.5, 10.0]), "k_max": rng.choice([1, 2, 128])},
+                      "quality": {"enabled": rng.random() < 0.7, "shadow": rng.random() < 0.5, "fusion": {"alpha_semantic": rng.choice([0.0, 0.6, 1.0])},
+                                  "mmr": {"enabled": rng.random() < 0.7, "lambda": rng.choice([0.0, 0.5, 1.0]), "k": rng.choice([1, 2, 8])}}},
+               "graph": {"enabled": True, "coactivation_threshold": 0.0, "observe_top_k": rng.choice([1, 2, 8]), "pair_cap_per_obs": rng.choice([1, 64]),
+                         "merge": {"enabled": True, "min_size": 2, "min_avg_w": 0.3, "max_diameter": 4, "cap_per_turn": rng.choice([1, 2])},
+                         "split": {"enabled": True, "weak_edge_thresh": rng.choice([0.0, 0.3]), "min_component_size": 2, "cap_per_turn": 2},
+                         "promotion": {"enabled": True, "label_mode": rng.choice(["lexmin", "concat_k"]), "attach_weight": 0.5, "cap_per_turn": 1}},
+               "t3": {"allow_reflection": True, "reflection": {"backend": "rulebased", "summary_tokens": rng.choice([0, 1, 64]), "topk_snippets": rng.choice([0, 1, 3]), "embed": rng.random() < 0.5, "log": True}},
+               "scheduler": {"budgets": {"time_ms_reflection": 10 ** 8, "ops_reflection": rng.choice([0, 1, 5])}},
+               "perf": {"enabled": True, "metrics": {"report_memory": True}}}
+        cfg = merge(cfg, nat)
+        cfg["t2"]["sim_threshold"] = -1.0
+        t3_deny = False
     if any(s_.startswith("store-") for s_ in sites):
         # a store fault is only telling when several approved deltas reach the store: the T4 filters stay wide open
         cfg["t4"].update({"churn_cap_edges": 64, "delta_norm_cap_l2": 100.0, "novelty_cap_per_node": 1.0})
@@ -373,7 +398,32 @@ def run(case, faulted, sess):
         return {"canon": canon, "results": list(env.results), "hits": hits}
 
 
+def check_natural(case, sess: Session):
+    f = run(case, False, sess)
+    if "rejected" in f:
+        sess.count("cfg_rejected_by_validator")
+        sess.seen("rejections", f["rejected"])
+        return
+    sess.evaluations += 1
+    sess.count("natural_boundary_scenarios")
+    h = case["cfg"]["t2"]["hybrid"]
+    sess.seen("natural_hybrid_settings", f"lambda={h['lambda_graph']} k_max={h['k_max']} hops={h['walk_hops']} eps={len(case['world']['eps'])}")
+    bad = [r for r in f["results"] if r.get("exc")]
+    if bad:
+        sess.violation("exception-escaped-run_turn@natural-failure-in-a-guarded-layer", dict(case), {"exc": bad[0]["exc"][:200], "tb": bad[0].get("tb", "")[-400:],
+                                                                                                 "hybrid": h, "episodes": len(case["world"]["eps"])})
+        return
+    n = len(case["turns"])
+    short = {k: v.count(b"\n") for k, v in f["canon"].items() if k in ("t2.jsonl", "turn.jsonl", "apply.jsonl") and v.count(b"\n") != n}
+    if short or "turn.jsonl" not in f["canon"]:
+        sess.violation("canonical-records-missing@natural-failure-in-a-guarded-layer", dict(case), {"lines": short, "turns": n})
+        return
+    sess.nontrivial.add(chash(("natural", case["seed"])))
+
+
 def check_case(case, sess: Session):
+    if case["sites"] == ["natural"]:
+        return check_natural(case, sess)
     f = run(case, True, sess)
     if "rejected" in f:
         sess.count("cfg_rejected_by_validator")
@@ -476,6 +526,8 @@ def main(tier: str, seed: int):
                 plan.append((["boot-garbage"], rng.randrange(len(EXCS)), (gk, gn)))
     for _ in range(40 if tier == "quick" else 10000):
         plan.append((None, None))
+    for _ in range(60 if tier == "quick" else 6000):
+        plan.append((["natural"], 0))
     rng.shuffle(plan)
     nj = par.NWORK
     for ex in par.pmap(_chunk, [(tier, seed, i, plan[i::nj]) for i in range(nj)]):
@@ -486,6 +538,7 @@ def main(tier: str, seed: int):
     sess.require("faulted_scenarios", 120)
     sess.require("baseline_twins_compared", 100)
     sess.require("scenarios_with_all_failpoints_hit", 80)
+    sess.require("natural_boundary_scenarios", 40)
     for s in SITES:
         sess.require("failpoint_hits:" + s, 1)
     sess.finish()
